@@ -83,10 +83,20 @@ def gen(rng):
         lo, hi = T()[3][m.seg]
         return m.pc[m.seg] + n <= hi
 
-    add('\tcpu\t%s' % cpu)
     lo, hi = T()[3]['code']
     m.pc['code'] = rng.randrange(lo, min(hi, lo + 0x400))
-    add('\torg\t%d' % m.pc['code'])
+    if rng.random() < 0.15:
+        # the CODE counter positioned before the first CPU statement (which selects CODE and keeps its counter)
+        add('\torg\t%d' % m.pc['code'])
+        if rng.random() < 0.4 and m.pc['code'] + 16 < hi:
+            d = rng.randrange(1, 16)
+            add('\trorg\t%d' % d)
+            m.pc['code'] += d
+        add('\tcpu\t%s' % cpu)
+        kinds.append('org-before-cpu')
+    else:
+        add('\tcpu\t%s' % cpu)
+        add('\torg\t%d' % m.pc['code'])
     nstat = rng.randrange(6, 60)
     for _ in range(nstat):
         pcsym, dop, rop, segtab = T()
